@@ -392,6 +392,38 @@ func judgePost(i int, q0 *request, o *observed, name string) string {
 	return label
 }
 
+// judgeFail: a post whose article file could not be written must fail as a whole.
+func judgeFail(i int, q *request, o *observed, lim int) string {
+	what := fmt.Sprintf("post by %s on %s with article files limited to %d bytes (%d lines): ", q.u.id, q.dirBoard, lim, len(q.lines))
+	if o.out == "PANIC" || o.out == "TIMEOUT" {
+		run.Fail(i, "crash:CreateArticle", what+o.out+": "+hx.LastPanic)
+		return "postfail:" + o.out
+	}
+	if q.has('n') || q.dirBoard != q.board {
+		return "postfail:refused"
+	}
+	grew := len(o.dirAfter) != len(o.dirBefore) || !bytes.Equal(o.dirAfter, o.dirBefore)
+	if !strings.HasPrefix(o.out, "err:") {
+		// the request reported success: then the stored file must be complete after all
+		rec := lastRec(o.dirAfter, recSz)
+		name := string(cutNul(rec[:min(len(rec), 28)]))
+		if f := o.filesA[name]; !bytes.HasSuffix(f, []byte(name+".html\n")) {
+			run.Fail(i, "fail:incomplete-file", what+"reported success, but the stored file is truncated")
+		}
+		return "postfail:succeeded"
+	}
+	if grew {
+		run.Fail(i, "fail:index-grew", what+"failed ("+o.out+") but the index changed from "+fmt.Sprint(len(o.dirBefore)/recSz)+" to "+fmt.Sprint(len(o.dirAfter)/recSz)+" records: an entry without a complete article")
+	}
+	if o.npAfter != o.npBefore {
+		run.Fail(i, "fail:numposts", what+"failed but NumPosts changed")
+	}
+	if !bytes.Equal(o.xBefore, o.xAfter) {
+		run.Fail(i, "fail:index-grew", what+"failed but the ALLPOST index changed")
+	}
+	return "postfail:failed-clean"
+}
+
 func cutNulKeep(b []byte) []byte { return b } // the UserID array is copied whole into the owner field
 
 func orStr(a, b string) string {
